@@ -123,9 +123,9 @@ Definition e_set_workload_status (s : estate) (st : wstat) (a e n : name) (ttl :
 
 (* ---------------- redis ---------------- *)
 
-(* Rediaron.BindStatus: EXISTS entity, then SET status value [EX ttl] *)
+(* Rediaron.BindStatus: if ttl != 0, EXISTS entity; then SET status value [EX ttl] *)
 Definition r_bind_status (s : rstate) (ek sk : key) (v : value) (ttl : Z) : rstate * (option err + unit) :=
-  if negb (r_exists s [ek] =? 1) then (s, inl (Some ECount))
+  if negb (ttl =? 0) && negb (r_exists s [ek] =? 1) then (s, inl (Some ECount))
   else (r_set s sk v ttl, inl None).
 
 (* Rediaron.SetNodeStatus: no existence check *)
